@@ -3,7 +3,7 @@
 Heap order over arbitrary key sequences and the radix arithmetic are value-level
 invariants over unbounded histories: not decided.  Claimed: structural clauses.
 """
-from ..core import (AnalysisBroken, Inliner, canon, strip, last_member, must_pass, relpath, norm_cond, walk, forward)
+from ..core import (names_of, same_value, AnalysisBroken, Inliner, canon, strip, last_member, must_pass, relpath, norm_cond, walk, forward)
 from ..analyses import (is_call, holding, path_to, describe, exits_of, loops, innermost_loop, must_pass_from_block, edge_dominates)
 from .c04 import cmp_tables
 
